@@ -28,17 +28,19 @@ ASSUMPTIONS = [
     "user function f.g is an uninterpreted function (any deterministic function)",
     "keys, attribute names and expression shapes are concrete per path (explored as decisions)",
     "excluded as in the property: mutation behind the manager, replacing a container that holds a defined member",
-    "known finding C01-false-cycle: a violation whose stale location's task lies on a cycle of the ordering graph (which, the data flow being acyclic, exists only through container-level target/dependency overlap) is matched by signature",
+    "known finding C01-false-cycle: a violation whose stale location's task lies on a cycle of the ordering graph that the harness derives from its own descriptors of the current definitions by the library's structural rule (a task targets and reads the containers enclosing its locations); the data flow being acyclic, such a cycle exists only through container-level overlap; it is matched by signature",
 ]
 BOUNDS = {
     "quick": "four prefixes (computed-key reads l[abs(b)%2]; the list l defined as a whole with readers inside) followed by <=2 operations over {a,b,c,l0,l1}; histories of 5 operations over {a,b,c} with a reduced operation set (value / 2 expression shapes / unregister); histories of <=3 operations over {a,b,n.x,l0} (one member per nested container) and <=3 over {n.x,n.y,n.z} (siblings); "
              "inductive step: every set of <=2 definitions over {a,b,n.x,l0,l1} registered in every order, then one arbitrary operation; "
+             "plain-number mode: histories of 3 value-type operations (value / += / whole-list replacement) whose values are the Python ints 1 / 2 (engine decisions) on 3 managers; "
+             "re-definition sequences: every sequence of 3 definitions over {a,b,c} (3 shapes per target) in which a target is defined again, then one arbitrary operation, under every iteration order of the start set; "
              "chains/fans of 1200..3000 tasks with symbolic head (pure build)",
     "thorough": "the 5-operation histories on the compiled build; histories <=4 over {a,b,n.x,l0}, <=3 over {a,b,c,n.x,l0,l1} and {a,b,n.x,n.y,n.z}; inductive step with <=3 definitions; "
                 "chains/fans up to 5000 tasks; both builds",
 }
 OUTSIDE = "longer histories (covered only through the inductive step + C03 history independence), floats, more than 6 locations"
-REQUIRED_CLASSES = ["step_checked", "inplace_on_expr", "unregister", "chain"]
+REQUIRED_CLASSES = ["step_checked", "inplace_on_expr", "unregister", "chain", "redefinition_sequence", "plain_number_values"]
 SIGNATURES = {
     "false_cycle": lambda cj, case: bool((cj.get("detail") or {}).get("false_cycle_through_loc")),
 }
@@ -91,8 +93,8 @@ def list_ops_reduced(defs, locs):
 
 
 class State:
-    def __init__(self, ex, build):
-        xd = get_xdeps(build)
+    def __init__(self, ex, build, nd=None):
+        xd = get_xdeps(build, nd) if nd else get_xdeps(build)
         self.xd = xd
         self.ex = ex
         self.m = xd.Manager()
@@ -105,8 +107,15 @@ class State:
         self.hist = []
         self.nv = 0
 
+    plain = False
+
     def fresh(self):
         self.nv += 1
+        if self.plain:
+            # plain-number mode: the assigned value is a Python int (1 or 2, an engine decision), so that code
+            # gated on concrete number types (isinstance(value, (int, float))) and on "the same number as last
+            # time" runs; container contents and definitions stay symbolic
+            return 1 + self.ex.choose(2)
         return self.ex.int(f"v{self.nv}")
 
     def apply(self, op):
@@ -174,12 +183,12 @@ class State:
             ok = ex.prove(eq(cur, exp), what=f"location {L} != " + ("its definition" if L in self.defs else "last assigned value"))
             if not ok:
                 if ex.mode == "sym":
-                    cyc = U.false_cycle_tasks(self.m)
+                    cyc = U.false_cycle_locs(self.defs)
                     ex.cexs[-1].detail = {
                         "history": list(self.hist), "loc": L, "step": step,
                         "definitions": {k: U.show(v) for k, v in self.defs.items()},
                         "false_cycle_tasks": cyc,
-                        "false_cycle_through_loc": (_refname(L) in cyc),
+                        "false_cycle_through_loc": (L in cyc),
                     }
                 return False
         return True
@@ -216,6 +225,9 @@ EXPECTED_EXC = ()
 
 def run_history(ex, case):
     st = State(ex, case["build"])
+    st.plain = bool(case.get("plain"))
+    if st.plain:
+        ex.notes["plain_number_values"] = ex.notes.get("plain_number_values", 0) + 1
     locs = case["locs"]
     for op in case.get("prefix", []):
         st.apply(_tup(op))
@@ -223,6 +235,8 @@ def run_history(ex, case):
         return
     for k in range(case["K"]):
         ops = list_ops_reduced(st.defs, locs) if case.get("reduced") else list_ops(st.defs, locs, case.get("rich", False))
+        if case.get("value_ops_only"):
+            ops = [o for o in ops if o[0] in ("val", "replace", "iadd", "same")]
         if "l" in st.defs:
             # excluded by the property: a container that is overwritten as a whole holding an expression-defined member
             ops = [o for o in ops if not (o[1] in ("l0", "l1") and o[0] in ("expr", "isubref", "iadd", "val")) and o[0] != "replace"]
@@ -271,6 +285,57 @@ def run_inductive(ex, case):
         ex.samples.append({"registered": st.hist[:-1], "then": st.hist[-1]})
 
 
+def run_redef(ex, case):
+    """A sequence of definitions in which a target may be defined again (with other inputs), the state being
+    checked after each, followed by one arbitrary operation.  tasks.py is loaded with find_taskids' start set
+    as an NDSet, so every iteration order of the start set is explored (the order in which the start tasks
+    are visited decides which stale edge of a re-defined task, if any, is followed first)."""
+    st = State(ex, case["build"], nd="start_set_only")
+    locs = case["locs"]
+    for k, (t, dsc) in enumerate(case["defs"]):
+        try:
+            st.apply(("expr", t, _tup(dsc)))
+        except Exception as e:
+            ex.fail(f"unexpected {type(e).__name__} during {st.hist[-1]}: {e}", {"history": list(st.hist)})
+            return
+        if not st.check(k - len(case["defs"])):
+            return
+    ex.notes["redefinition_sequence"] = ex.notes.get("redefinition_sequence", 0) + 1
+    ops = list_ops(st.defs, locs, False)
+    op = ops[ex.choose(len(ops))]
+    try:
+        st.apply(op)
+    except Exception as e:
+        ex.fail(f"unexpected {type(e).__name__} during {st.hist[-1]}: {e}", {"history": list(st.hist)})
+        return
+    st.check(0)
+    if len(ex.samples) < 2:
+        ex.samples.append({"definitions": st.hist[:-1], "then": st.hist[-1]})
+
+
+def _redef_cases(build, locs, n):
+    """sequences of n definitions over locs in which at least one target is defined twice; every prefix acyclic"""
+    import itertools
+    cand = [(t, dsc) for t in locs for dsc in U.candidates(t, locs, False)]
+    out = []
+    for seq in itertools.product(cand, repeat=n):
+        ts = [t for t, _ in seq]
+        if len(set(ts)) == n:
+            continue                      # no re-definition: covered by the inductive cases
+        defs, ok = {}, True
+        for t, dsc in seq:
+            if defs.get(t) == dsc:
+                ok = False
+                break
+            defs[t] = dsc
+            if U.is_cyclic(defs):
+                ok = False
+                break
+        if ok:
+            out.append({"mode": "redef", "build": build, "locs": locs, "defs": [list(c) for c in seq]})
+    return out
+
+
 def _tup(x):
     return tuple(_tup(i) for i in x) if isinstance(x, (list, tuple)) else x
 
@@ -307,7 +372,7 @@ def run_chain(ex, case):
 
 
 def run_case(ex, case):
-    return {"history": run_history, "inductive": run_inductive, "chain": run_chain}[case["mode"]](ex, case)
+    return {"history": run_history, "inductive": run_inductive, "chain": run_chain, "redef": run_redef}[case["mode"]](ex, case)
 
 
 def _hist_cases(build, locs, K, rich=False):
@@ -327,6 +392,19 @@ def _inductive_cases(build, locs, ndefs):
             if U.is_cyclic(dict(combo)):
                 continue
             out.append({"mode": "inductive", "build": build, "locs": locs, "defs": [list(c) for c in combo]})
+    return out
+
+
+def _plain_cases(build, K):
+    """value-type operations (value / += value / whole-list replacement / the object it holds) with plain
+    Python numbers 1 / 2 as values, on managers whose definitions read the locations that are assigned"""
+    out = []
+    locs = ["a", "l0", "l1", "n.x"]
+    for pf in ([["expr", "b", ["mul", ["loc", "l0"], ["const", 2]]]],
+               [["expr", "b", ["add", ["loc", "l0"], ["loc", "l1"]]], ["expr", "c", ["neg", ["loc", "a"]]]],
+               [["expr", "b", ["add", ["loc", "n.x"], ["loc", "a"]]], ["expr", "c", ["mul", ["loc", "b"], ["const", 2]]]]):
+        for first in range(10):
+            out.append({"mode": "history", "build": build, "locs": locs, "K": K, "first": first, "prefix": pf, "plain": True, "value_ops_only": True})
     return out
 
 
@@ -356,6 +434,8 @@ def cases(tier):
             for c in _hist_cases("pure", ["a", "b", "c", "l0", "l1"], 2):
                 cs.append(dict(c, prefix=pf))
         cs += _inductive_cases("pure", ["a", "b", "n.x", "l0", "l1"], 2)
+        cs += _redef_cases("pure", ["a", "b", "c"], 3)
+        cs += _plain_cases("pure", 3)
         cs += [{"mode": "chain", "build": "pure", "shape": "chain", "order": "fwd", "n": 3000},
                {"mode": "chain", "build": "pure", "shape": "chain", "order": "rev", "n": 1200},
                {"mode": "chain", "build": "pure", "shape": "fan", "order": "fwd", "n": 3000}]
@@ -368,6 +448,9 @@ def cases(tier):
             cs += _hist_cases(b, ["a", "b", "c", "n.x", "l0", "l1"], 3)
             cs += _hist_cases(b, ["a", "b", "n.x", "n.y", "n.z"], 3)
             cs += _inductive_cases(b, ["a", "b", "n.x", "l0", "l1"], 3 if b == "pure" else 2)
+            cs += _redef_cases(b, ["a", "b", "c"], 3)
+            if b == "pure":
+                cs += _redef_cases(b, ["a", "b", "n.x"], 3) + _redef_cases(b, ["a", "b", "c"], 4)
             cs += [{"mode": "chain", "build": b, "shape": "chain", "order": "fwd", "n": 5000},
                    {"mode": "chain", "build": b, "shape": "chain", "order": "rev", "n": 2000},
                    {"mode": "chain", "build": b, "shape": "fan", "order": "fwd", "n": 5000}]
